@@ -3,6 +3,7 @@
   value-carrying ledgers (`SameFin`).
 -/
 import RigoProofs.C02Defs
+import RigoProofs.TxRecv
 
 namespace Rigo.C02
 
@@ -268,9 +269,9 @@ theorem runTrx_finView {s : St} {ht : Int} {tx : TxIn} {rc : Account} {r : St ×
 
 /-! ### the whole CheckTx handling of one transaction -/
 
-theorem handleTx_check_finView (s : St) (h : Int) (tx : TxIn) :
-    finView (handleTx s false h tx).1 = finView s := by
-  unfold handleTx
+theorem handleTxOld_check_finView (s : St) (h : Int) (tx : TxIn) :
+    finView (handleTxOld s false h tx).1 = finView s := by
+  unfold handleTxOld
   simp only [Bool.false_eq_true, if_false]
   split
   · rfl
@@ -287,6 +288,12 @@ theorem handleTx_check_finView (s : St) (h : Int) (tx : TxIn) :
         · exact h1
         · rename_i hr; have := runTrx_finView hr; simp only [] at this; rw [this, h1]
         · rename_i hr; have := runTrx_finView hr; simp only [] at this; rw [this, h1]
+
+theorem handleTx_check_finView (s : St) (h : Int) (tx : TxIn) :
+    finView (handleTx s false h tx).1 = finView s := by
+  by_cases hl : byteLen tx.to = 20
+  · rw [handleTx_goodlen hl]; exact handleTxOld_check_finView s h tx
+  · rw [handleTx_badlen_fst hl]
 
 /-- CheckTx (`exec = false`) leaves the consensus view of accounts, delegatees and unbonding stakes,
     their committed history, the block context, the active parameters and the ghost counters alone. -/
